@@ -21,6 +21,7 @@ def check(ctx):
     ac.mc_attach_seg(ctx, [("HLJ", 0)] if not thorough else [("HLJ", 0), ("JS", 1), ("GD", 0), ("HN", 1), ("SC", 0)])
     ac.trace_attach(ctx, 1500 if thorough else 150)
     ac.big_uploads(ctx)
+    stored_files(ctx)
     ctx.cov["rule"] = ("MC_Attach: every behaviour of a terminal announcing NFiles files and sending 0x1211, any disjoint split into "
                        "chunks <= MaxChunk in any order with exact resends, interleaved files, early/late 0x1212, up to MaxSteps units; "
                        "each terminal behaviour is a script replayed under 6 segmentations. MC_AttachSeg: all (i<j) cut pairs of a fixed "
@@ -31,9 +32,37 @@ def check(ctx):
                         "file sizes below 2^31 (TLC integers)"]
 
 
+def stored_files(ctx):
+    """the real server with its default file handler: what ends up on disk for every completed upload (overlapping sessions, the
+    same name from two terminals, an all-zero phone, a second shorter upload under the same name, many sessions ending at once)
+    is byte for byte what that terminal uploaded"""
+    import os, tempfile, shutil
+    work = tempfile.mkdtemp(prefix="verif_c15_stored_")
+    ov = os.path.join(ctx.scratch, "stored.ndjson")
+    os.makedirs(os.path.join(work, "up1", "up2", "cwd"))
+    r = ctx.vh(["live-attach-overlap", os.path.join(work, "up1", "up2", "cwd"), ov], timeout=300, cwd=work)
+    oev = vlib.read_nd(ov, quoted=False) if os.path.exists(ov) else []
+    shutil.rmtree(work, ignore_errors=True)
+    if r.returncode != 0:
+        from checks import live_common as lc
+        lc.crash_check(ctx, r.returncode, r.stderr, "live-attach-overlap")
+    judged = [e for e in oev if e.get("uploaded")]
+    if len(judged) < 15:
+        raise vlib.ToolFailure("live-attach-overlap judged only %d uploads" % len(judged))
+    for e in judged:
+        if not e["stored"]:
+            nm = bytes(e["name"]).decode("latin1")
+            ctx.violation("stored-file-differs-from-the-upload name=%s" % nm,
+                          "default file handler: %s of terminal %s holds %d bytes that are not the uploaded content" % (nm, bytes(e["phone"]).decode("latin1"), e["len"]),
+                          {"kind": "live-attach-overlap", "event": e})
+    ctx.note_impl("completed-uploads-compared-with-the-stored-file", len(judged))
+
+
 def replay(ctx, path):
     ctx.build()
     r = json.load(open(path))["replay"]
+    if r.get("kind") == "live-attach-overlap":
+        stored_files(ctx); return
     if str(r.get("kind", "")).startswith("large-upload"):      # the large sessions are cheap: all of them are run again
         ac.big_uploads(ctx); return
     ac.replay_session(ctx, r)
